@@ -285,6 +285,27 @@ CLAIMED["C10"] = dict(
          "correspondence are what decides. Lines with string-like operands are only surrounded by new blank/comment lines, never edited.",
 )
 
+CLAIMED["C08"] = dict(
+    text="Theorems: the value-level core consists of total functions (they terminate on every input by construction), and every way they "
+         "fail is loud - Loud m: success only grows the error log, an abort comes with at least one new error report, the internal-error "
+         "outcome is unreachable - proved compositionally (loud_pure, loud_err, loud_bind, loud_mapM, loud_err_abort) and for get_as_int "
+         "in both flavours, register numbers, every CPU operand form of the register-mode field, register and accumulator fields, "
+         "the report loop of offset/immediate fields, and the directives .byte .word implicit-list .blkb .blkw .align .ascii "
+         "(loud_getAsIntM ... loud_asciiImpl); the lazy evaluator reports every undefined name and never gives a value to 'a = a' or "
+         "'a = a + k' at any fuel (undefined_reports, self_reference_no_value, self_increment_no_value); in the report machinery an "
+         "error or critical report always turns the run into a failure and warnings never do (error_report_fails, "
+         "critical_report_fails, warning_report_passes). Tie and search: grammar G - every mnemonic and directive, every operand "
+         "form and operator, three bracket kinds, all number/character/string spellings, nesting <= 8, planted faults, token- and "
+         "character-level mutation - in-process under a watchdog and through the CLI with both report handlers; outcome must be ok or "
+         "failed-with-an-error-report; the first witness of each new crash site is shrunk.",
+    design_ref="DESIGN.md §5 C08",
+    technique="Lean 4 theorems (totality by construction, a compositional 'Loud' invariant over the error-log monad, induction on fuel) + grammar-directed exploration with planted faults and mutation under a watchdog (search for failing inputs; not a proof)",
+    level="partial",
+    note=NOTE + "Partial: the parser and the whole-program elaboration are partial definitions in the model (termination not proved) and Python-level "
+         "failures (recursion depth, int-to-str limits, I/O) have no counterpart in it; for the property as stated over all source texts the "
+         "exploration is a search, not a proof. Defects it found are listed in known_findings.txt (fixed: lines) and DESIGN.md.",
+)
+
 PENDING_REASON = "check not built yet (build in progress; see DESIGN.md §8 for the order)"
 
 
